@@ -95,7 +95,7 @@ CLAIMS = {
                  "grapheme's length, change only single ASCII letters and only inside the span; g? keeps the text outside the span, maps char by char, is an "
                  "involution and fixes non-letters. Every run traces the real editor at LineBuf::exec_cmd (MotionKind, verb, register, text, real segmentation, "
                  "cursor/clamp, all registers before and after) and checks each pair directly against the property and against the Lean verb model.",
-        "note": NOTE_COMMON + " The motion engine (which span a motion denotes) is an input here, not verified; puts from line/block registers and visual-block "
+        "note": NOTE_COMMON + " Simple motions (h l 0 ^ $ | gg G, whole buffer) are modelled (Model/Motions.lean): l and h never cross or land on a line terminator, every position they produce lies inside the text, so an operator applied to them gets a range s <= e <= len; the model's MotionKind is compared with the real eval_motion's on every such command of the run. For the other motions and text objects the motion engine (which span a motion denotes) is an input here, not verified; puts from line/block registers and visual-block "
                 "register contents are compared on the implementation only through the direct oracle (text side), not modelled; Indent/Dedent/JoinLines/Equalize and ex "
                 "verbs are outside C08's operator list (ex is C16). Pre-states with a stale offset cache are skipped and counted (C09 owns freshness).",
         "technique": "Lean 4 proof (frame theorems quantified over MotionKind, registers and buffers) + per-verb correspondence and direct property oracle through the exec_cmd trace hook",
